@@ -123,7 +123,9 @@ impl IgnoreStack {
         }
         // When following links, the same directory can be entered again with a stack that
         // contains its ignore files already.
-        if self.rules.iter().any(|g| g.path() == dir.to_path_buf()) {
+        // (The global rules are rooted at `/`, but they are not the ignore files of `/`.)
+        let collected = &self.rules[self.global..];
+        if collected.iter().any(|g| g.path() == dir.to_path_buf()) {
             return self.clone();
         }
         let gitignore = match builder.build() {
